@@ -288,7 +288,7 @@ def gen_nearmiss(rng):
   """-> (source, description).  half of them are exactly well-typed, the others off by one somewhere"""
   w = rng.choice([1, 2, 3, 4, 7, 8, 9, 16, 31, 32, 33, 48, 49, 50, 63, 64, 65, 100])
   d = rng.choice([0, 0, 1, -1]) if w > 1 else rng.choice([0, 1])
-  shape = rng.randrange(14)
+  shape = rng.randrange(15)
   wa, wb, wo = w, w + d, w
   lit_k = rng.choice([w - 1, w, w + 1, w, w])
   lit = rng.choice([(1 << lit_k) - 1, 1 << lit_k, (1 << lit_k) + 1]) if lit_k >= 0 else 1
@@ -314,6 +314,11 @@ def gen_nearmiss(rng):
   elif shape == 13:
     l = [rng.choice([0, 1, 2, 3]), rng.choice([0, 1, 5]), lit]; rng.shuffle(l); wb = w
     stmt = f"s.o @= ({l[0]} if s.c else ({l[1]} if s.a[0] else {l[2]}))" if rng.random() < 0.5 else f"s.o @= (({l[0]} if s.a[0] else {l[1]}) if s.c else {l[2]})"
+  elif shape == 14:
+    # constant operands that evaluate to a negative python int (probe shape of the listed finding F-W7)
+    k1 = rng.choice([1, 1, 2, 3]); k2 = k1 + rng.choice([1, 2]); wb = w
+    stmt = rng.choice([f"s.o @= s.a {op} (-{k1})", f"s.o @= s.a {op} ~{k1}", f"s.o1 @= s.a {cmp_} (-{k1})", f"s.o @= s.a {op} ({k1} - {k2})"])
+    if w < 3: w = wa = wb = wo = 4
   else: stmt = f"s.o @= concat(s.a[0:{max(1, w // 2)}], s.b[0:{w - max(1, w // 2) if w > 1 else 1}])"
   return NM_TMPL.format(wa=wa, wb=max(1, wb), wo=wo, stmt=stmt), {"shape": shape, "w": w, "delta": d, "literal": lit, "stmt": stmt}
 
@@ -346,6 +351,8 @@ def run_nearmiss(sh, case):
     if accepted and err is not None and is_width_error(err):
       lit = desc["literal"]
       mech = "literal-width-float-log2-wrong-from-2^49" if desc["shape"] in (4, 5, 6) and lit >= (1 << 49) else None
+      if desc["shape"] == 14 and "Integer -" in str(err):
+        mech = "negative-integer-constant-operand-accepted-but-refused-by-simulation"
       sh.violation("checker-accepted-a-block-whose-simulation-raises-a-width-error", dict(desc, error=str(err)[:160], source=src), mechanism=mech, case=case)
     if case < 1:
       sh.sample({"near_miss": desc, "checker_accepted": accepted, "rejection": rej, "simulation_error": None if err is None else str(err)[:100]})
